@@ -19,6 +19,10 @@ pub struct Case {
     /// starts; output_delay() is then read at, and must be right for, the new ratio
     #[serde(default)]
     pub set_pos: Option<f64>,
+    /// the instance is a reused one: before the clip it has processed two chunks of noise (asynchronous types:
+    /// at the ratio original * max_rel^pos, set without ramp) and has then been reset()
+    #[serde(default)]
+    pub reuse: Option<f64>,
 }
 
 pub struct C14;
@@ -62,7 +66,11 @@ fn run_t<T: SampleX>(c0: &Case) -> Outcome {
         Some(pos) if kind.is_async() && cfg.max_rel > 1.0 => Some(crate::hist::proposal_ratio(&cfg, pos)),
         _ => None,
     };
-    if set_ratio.is_none() {
+    let reuse_ratio = match c0.reuse {
+        Some(pos) if kind.is_async() && cfg.max_rel > 1.0 => Some(crate::hist::proposal_ratio(&cfg, pos)),
+        _ => None,
+    };
+    if set_ratio.is_none() && reuse_ratio.is_none() {
         cfg.max_rel = 1.0;
     }
     o.class(format!("kind:{}", kind.name()));
@@ -94,6 +102,27 @@ fn run_t<T: SampleX>(c0: &Case) -> Outcome {
         }
     };
     let res = &mut b.res;
+    if c0.reuse.is_some() {
+        if let Some(r) = reuse_ratio {
+            if let Err(e) = res.set_ratio(r, false) {
+                o.fail(format!("set-ratio-rejected:{}", kind.name()), format!("in-range ratio {} rejected: {}", r, e));
+                return o;
+            }
+        }
+        let noise = Signal::Noise { seed: c0.n_off as u64, amp: 1.0 };
+        let mut at = 0u64;
+        for _ in 0..2 {
+            let need = res.in_next();
+            let inp: Vec<Vec<T>> = vec![(0..need).map(|n| T::of64(noise.value(0, at + n as u64))).collect()];
+            at += need as u64;
+            if let Err(e) = res.proc_alloc(&inp, None) {
+                o.fail(format!("err:{}", kind.name()), format!("process failed: {}", e));
+                return o;
+            }
+        }
+        res.rst();
+        o.class("reused-after-reset");
+    }
     if let Some(r) = set_ratio {
         if let Err(e) = res.set_ratio(r, false) {
             o.fail(format!("set-ratio-rejected:{}", kind.name()), format!("in-range ratio {} rejected: {}", r, e));
@@ -190,20 +219,20 @@ impl Property for C14 {
         "C14"
     }
     fn rule(&self) -> String {
-        "cases = configuration of any of the seven types (ratios / rate pairs, filter lengths, block sizes, degrees, chunk sizes), a Gaussian event wide enough to lie in the passband, at a generated position; the stream is produced exactly as the README describes (process loop, process_partial for the rest, process_partial(None) until new_length + delay frames exist); the centroid of the output event must be n*ratio + output_delay() within max(1,ratio)+1 output frames, and after skipping output_delay() frames and keeping len*ratio frames the clip must contain the whole event at n*ratio. non-trivial = every case with a non-empty passband. distinct = distinct case JSON digest.".into()
+        "cases = configuration of any of the seven types (ratios / rate pairs, filter lengths, block sizes, degrees, chunk sizes), a Gaussian event wide enough to lie in the passband, at a generated position; a quarter of the instances are reused ones (two chunks of noise at another ratio, then reset()); the stream is produced exactly as the README describes (process loop, process_partial for the rest, process_partial(None) until new_length + delay frames exist); the centroid of the output event must be n*ratio + output_delay() within max(1,ratio)+1 output frames, and after skipping output_delay() frames and keeping len*ratio frames the clip must contain the whole event at n*ratio. non-trivial = every case with a non-empty passband. distinct = distinct case JSON digest.".into()
     }
     fn assumptions(&self) -> Vec<String> {
         vec!["configurations whose low-pass has no passband (tiny FFT blocks, short filters at strong down-sampling) are constructed away and counted".into()]
     }
     fn strategy(&self, tier: Tier) -> BoxedStrategy<Case> {
         let th = tier.thorough();
-        (((0usize..7).prop_map(|i| ALL_KINDS[i]), any::<bool>(), ratio_strategy(), rate_pair_strategy(if th { 640 } else { 320 }), chunk_strategy(if th { 4096 } else { 1024 }), 1usize..=4, 0u8..5), ((2usize..=32).prop_map(|k| 8 * k), 0.7f32..0.99, 16usize..=128, 0u8..4, 0u8..6, 0usize..400, 1.0f64..3.0, any::<bool>(), prop_oneof![2 => Just(None), 1 => (-1.0f64..=1.0).prop_map(Some)], 1.5f64..4.0))
-            .prop_map(move |((kind, f32, ratio, rates, chunk, sub, degree), (sinc_len, f_cutoff, os, interp, window, n_off, sigma_mul, recipe, set_pos, max_rel))| {
+        (((0usize..7).prop_map(|i| ALL_KINDS[i]), any::<bool>(), ratio_strategy(), rate_pair_strategy(if th { 640 } else { 320 }), chunk_strategy(if th { 4096 } else { 1024 }), 1usize..=4, 0u8..5), ((2usize..=32).prop_map(|k| 8 * k), 0.7f32..0.99, 16usize..=128, 0u8..4, 0u8..6, 0usize..400, 1.0f64..3.0, any::<bool>(), prop_oneof![2 => Just(None), 1 => (-1.0f64..=1.0).prop_map(Some)], 1.5f64..4.0, prop_oneof![3 => Just(None), 1 => (-1.0f64..=1.0).prop_map(Some)]))
+            .prop_map(move |((kind, f32, ratio, rates, chunk, sub, degree), (sinc_len, f_cutoff, os, interp, window, n_off, sigma_mul, recipe, set_pos, max_rel, reuse))| {
                 let mut cfg = Config { kind, f32, ratio, rate_in: rates.0, rate_out: rates.1, chunk, sub_chunks: sub, degree, sinc_len, f_cutoff, os, interp, window, ..Config::default() };
                 if kind.is_async() {
                     // keep the stream affordable: sigma ~ 4/ratio input frames, L x points x frames
                     cfg.ratio = ratio.clamp(1.0 / 8.0, 8.0);
-                    if set_pos.is_some() {
+                    if set_pos.is_some() || reuse.is_some() {
                         cfg.max_rel = max_rel;
                         cfg.ratio = ratio.clamp(1.0 / 4.0, 4.0);
                     }
@@ -215,7 +244,7 @@ impl Property for C14 {
                     let k = (64 + m - 1) / m;
                     cfg.chunk = cfg.chunk.max(k * per * if kind == Kind::FftInOut { 1 } else { sub });
                 }
-                Case { cfg, n_off, sigma_mul, recipe, set_pos }
+                Case { cfg, n_off, sigma_mul, recipe, set_pos, reuse }
             })
             .boxed()
     }
